@@ -114,12 +114,12 @@ func (w *c01walk) walk(n *model.Node, in any, orig, dst reflect.Value, where str
 			var fin any
 			forig := reflect.Value{}
 			if parse {
-				if m, ok := in.(map[string]any); ok {
+				if get, ok := model.StructGetter(in); ok {
 					key := f.Key
 					if t, ok := f.Tags["zog"]; ok {
 						key = t
 					}
-					fin = m[key]
+					fin = get(key)
 				}
 			} else {
 				forig = orig.FieldByName(f.GoName())
